@@ -12,7 +12,7 @@ claimed = {
  "C17": ("exploration",
          "deterministic simulation: seeded scheduler over goroutines parked at every reference operation; independent walker + porcupine linearizability check",
          "2-3 concurrent recording operations (record, annotate, policy stage, policy apply) plus tip readers run against one repository under seeded interleavings (uniform, PCT-style, single pre-emption) of their reference operations; each operation must fail without trace or succeed with exactly one entry, the final log must be a consecutive single-parent chain every reader walks, and the append/read history must be linearizable against a sequential log (porcupine). Sampled schedules, counted as distinct canonical reference-operation orders.",
-         "SimStore's Commit mirrors gitinterface's read-tip/commit-tree/compare-and-set; OS-process races are modelled by goroutines with separate RSL caches, one runnable at a time.",
+         "SimStore's Commit mirrors gitinterface's read-tip/commit-tree/compare-and-set; OS-process races are modelled by goroutines with separate RSL caches, one runnable at a time. A real-git slice (4 of 16 workers) runs two gitinterface handles on one real repository and pre-empts writer A before its k-th git subprocess (k swept 0-15, log empty / 1 / 2 entries) to run writer B, so the real compare-and-set is under test too.",
          "DESIGN.md §6 C17"),
  "C03": ("exploration",
          "deterministic simulation: seeded operation sequences with injected storage errors, restarts and repeats; independent chain walker after every step",
@@ -37,7 +37,7 @@ claimed = {
  "C11": ("exploration",
          "deterministic simulation: the identical seeded operation list re-executed under P and under P plus/minus global rules (exact replay makes the two runs comparable); reference model for the direct rule",
          "C01-style histories whose policies declare, change and remove global threshold and block-force-push rules (matching the verified reference, another one, or everything), with force pushes. Every verification is compared (i) with the model under P+G and (ii) with the same verification in a second execution of the same operations with all global rules stripped: accepting under P+G but not under P is a violation.",
-         "SimStore; controller-declared global rules are not generated.",
+         "SimStore for the repository's own global rules; global rules declared by a controller run in a real-git network slice (controller + network repository, gittuf's own propagation; 3 of 16 workers, rule combinations swept).",
          "DESIGN.md §6 C11"),
  "C08": ("exploration",
          "deterministic simulation: cache-holding actor with stale-cache faults and restarts vs a cache-less fresh twin on a fork of the same store",
@@ -57,22 +57,22 @@ claimed = {
  "C19": ("exploration",
          "deterministic simulation: prediction by the real VerifyMergeable, then exact re-execution of the same history once per candidate recorder (a fork of the same state) and full verification of the recorded merge",
          "Seeded branch rules (threshold 1-3, optional global threshold), feature histories ahead of or diverged from the branch, and prior approvals (authorizations and code-review approvals, possibly stale) for the predicted merge; for six candidate recorders (three trusted persons incl. ones already counted, an untrusted person, an outsider key, unsigned) the fast-forward or the pre-built merge commit is recorded and verified, and the outcome is compared with the three-way contract of the prediction.",
-         "SimStore's GetMergeTree is a per-path three-way merge stub; file rules are not generated here.",
+         "SimStore's GetMergeTree is a per-path three-way merge stub; a file rule on the feature path is drawn in 30 % of the cases (fast-forward merges compared; a recorded merge commit is itself subject to the rule and not compared).",
          "DESIGN.md §6 C19"),
  "C12": ("exploration",
          "deterministic simulation: seeded sequences of stage/apply/discard by signers inside and outside the roles with crash leftovers and ref/log tampering written into the store; ref/log state machine plus writer-verifier link",
          "Valid successors (root rotation over several staged steps, thresholds, versions, rules) and successors produced by non-root / non-rule-file keys are staged, applied and discarded in seeded order, with policy/staging refs moved without entries, entries without refs, and non-descendant staging as starting states. A successful Apply must have moved policy to the staged tip (a descendant), appended its entry, and published a state that a fresh LoadCurrentState and full verification accept; Apply must refuse on any ref/entry disagreement and must not move the policy ref when it fails; Discard must restore staging.",
-         "SimStore; the API-level loadRootMetadata refusal is represented by what non-root signers can produce (metadata without the required quorum).",
+         "SimStore for Apply/Discard/ReconcileStaging; the API clause (root-of-trust changes refused for non-root signers) and Apply of a non-descendant through the real KnowsCommit run in a real-git slice (workers 0-3, every 100th case: 10-14 of 29 root mutators of experimental/gittuf per case, signer kinds and staged-but-unrecorded scenarios swept). SignRoot is not among the calls that must be refused.",
          "DESIGN.md §6 C12"),
  "C18": ("exploration",
          "deterministic simulation on real git: upstream and downstream repositories on tmpfs evolving in seeded step order, repeated propagation, ground truth by NUL-delimited plumbing",
          "Seeded upstream/downstream trees (nested, odd and prefix-related names), directives with and without upstream path and trailing slash (grid walked by run index), upstream recording new states and revoking its latest entry between repeated propagations, unrelated downstream commits; after every call the downstream tree and log are read with ls-tree -z / git log and compared with the model (exact subtree, bystanders byte-identical, propagation entry naming upstream location and entry, no commit or entry when content already matches).",
-         "Real internal/propagation, gitinterface and git 2.39; local repositories only; this machine spawns ~100 git processes per second in total, so runs are few and stratified.",
+         "Real internal/propagation, gitinterface and git 2.39; local repositories only; one case in eight is the controller scenario (directive synthesised by experimental/gittuf PropagateChangesFromUpstreamRepositories, upstream cloned); this machine spawns ~100 git processes per second in total, so runs are few and stratified.",
          "DESIGN.md §6 C18"),
  "C10": ("exploration",
-         "deterministic simulation on real git: harness-written commit graphs over an odd path alphabet with seeded signer patterns, verified through the real gitinterface parsers and verifier",
+         "deterministic simulation: (real git) harness-written commit graphs over an odd path alphabet with seeded signer patterns, verified through the real gitinterface parsers and verifier; (SimStore) seeded multi-commit pushes, approvals and rule changes judged by a file-rule reference model",
          "Policies with a literal and a directory-prefix file rule; commit graphs (linear, merged side branch, merged unrelated root) over names with space, tab, quote, backslash, control, multi-byte and glob characters, signed by the authorised developer, another developer or nobody; (i) GetFilePathsChangedByCommit / GetAllFilesInTree must return exactly the names written, (ii) full verification must reject an unauthorised non-merge change to a protected path and accept fully authorised histories.",
-         "Real gitinterface and git 2.39; history written by harness plumbing with in-process signatures; few, stratified runs (process spawning is the bottleneck).",
+         "6 of 16 workers: real gitinterface and git 2.39, history written by harness plumbing with in-process signatures, literal rule over 8 odd names through escaped patterns (few, stratified runs). 10 of 16 workers: SimStore slice for the verdict side of file rules (thresholds 1-2, approvals, delegated file namespace, rules changing between pushes, several commits per push) against a file-rule reference model; merges next to protected paths are unspecified.",
          "DESIGN.md §6 C10"),
  "C15": ("exploration",
          "deterministic simulation on real git: a bare forge and two clones racing to it, harness-written diverged suffixes, torn-push and lost-ack faults through the exec hook, independent walker on both sides",
